@@ -19,6 +19,10 @@ pub struct Solution {
     pub continuous_sol: Option<ContinuousOutput>,
 }
 
+/// Slack of the range check, equal to the one of the segment lookup: a solver that lands on `xend` exactly
+/// can report a last time that differs by rounding from the end `xold + h` of its last dense segment.
+const RANGE_TOL: Float = 1e-12;
+
 impl Solution {
     /// Evaluate the continuous solution at a single time t.
     /// Returns an error if continuous_sol was disabled or t is outside the covered range.
@@ -29,7 +33,7 @@ impl Solution {
             .ok_or(Error::Interpolation(InterpolationError::NotEnabled))?;
         let (start, end) = dense.t_span().ok_or(Error::Interpolation(InterpolationError::NotEnabled))?;
         let (lo, hi) = (start.min(end), start.max(end));
-        if t < lo || t > hi {
+        if t < lo - RANGE_TOL || t > hi + RANGE_TOL {
             return Err(Error::Interpolation(InterpolationError::OutOfRange {
                 t,
                 t_start: start,
@@ -53,7 +57,7 @@ impl Solution {
         let (start, end) = dense.t_span().ok_or(Error::Interpolation(InterpolationError::NotEnabled))?;
         let (lo, hi) = (start.min(end), start.max(end));
         for &t in ts {
-            if t < lo || t > hi {
+            if t < lo - RANGE_TOL || t > hi + RANGE_TOL {
                 return Err(Error::Interpolation(InterpolationError::OutOfRange {
                     t,
                     t_start: start,
